@@ -12,15 +12,15 @@ variable {E : Env} {dev : Bool} {Γ : Path → List (Dir × Digest)}
 /-- only the paths in `S` may differ between `st` and `st'` -/
 def Touch (S : List Path) (st st' : St) : Prop :=
   ∀ q, q ∉ S → st'.results q = st.results q ∧ st'.inputs q = st.inputs q ∧ st'.dirStates q = st.dirStates q
-    ∧ st'.disk q = st.disk q
+    ∧ st'.disk q = st.disk q ∧ st'.variantIds q = st.variantIds q
 
-theorem Touch.refl (S : List Path) (st : St) : Touch S st st := fun _ _ => ⟨rfl, rfl, rfl, rfl⟩
+theorem Touch.refl (S : List Path) (st : St) : Touch S st st := fun _ _ => ⟨rfl, rfl, rfl, rfl, rfl⟩
 
 theorem Touch.trans {S : List Path} {a b c : St} (h1 : Touch S a b) (h2 : Touch S b c) : Touch S a c := by
   intro q hq
-  obtain ⟨a1, a2, a3, a4⟩ := h1 q hq
-  obtain ⟨b1, b2, b3, b4⟩ := h2 q hq
-  exact ⟨b1.trans a1, b2.trans a2, b3.trans a3, b4.trans a4⟩
+  obtain ⟨a1, a2, a3, a4, a5⟩ := h1 q hq
+  obtain ⟨b1, b2, b3, b4, b5⟩ := h2 q hq
+  exact ⟨b1.trans a1, b2.trans a2, b3.trans a3, b4.trans a4, b5.trans a5⟩
 
 theorem Touch.mono {S S' : List Path} {a b : St} (hs : ∀ q, q ∈ S → q ∈ S') (h : Touch S a b) : Touch S' a b :=
   fun q hq => h q (fun hm => hq (hs q hm))
@@ -284,7 +284,7 @@ theorem kstep_mk {cfg : Cfg} (hy : Hyp E dev cfg) (i : Info) (pre ds : List Step
           refine wp_mono _ _ _ _ _ _ ?_ (fun _ hx => hx) (hl1 false i.pkg r2 ht2)
           intro _ r3 ⟨ht3, hf3⟩
           have hnot : i.path ∉ pathsL ds := by simpa [Step.path, Step.info, Step.deps] using wt.acyc
-          obtain ⟨_, _, e3, e4⟩ := (hf2.trans hf3) i.path hnot
+          obtain ⟨_, _, e3, e4, _⟩ := (hf2.trans hf3) i.path hnot
           have hfr : Touch (paths (.mk i pre ds)) r.st r3.st :=
             (touch_of_agree hself hp1.agree).trans ((hf2.trans hf3).mono subds)
           apply wp_wasAlreadyRun
